@@ -350,6 +350,40 @@ InClaim(op, meth, A, B) ==
   \* numbers are NumPy's business or undefined)
   /\ CxCase(A, B) => (op \in CxOps /\ meth = "call" /\ (B.k = "x" \/ ELen(A) = ELen(B)))
 
+\* integer data.  NumPy evaluates a ufunc whose operands are all integer-typed (a bare whole number adopts the other
+\* operand's type) in that integer type and wraps around silently beyond its range: that is NumPy's arithmetic on the
+\* numbers the user wrote, not something the units bookkeeping adds - a step whose RAW result (the ufunc on the operands'
+\* own numbers) leaves the range of the narrowest integer type involved is outside the claim.  Everything the bookkeeping
+\* adds on top (rescaling an operand, multiplying by a cancellation coefficient) is inside: the SI mathematics does not
+\* depend on the numeric type the operands are written in.  dt: "i1" "u1" "i2" "u2" "i4" "i8" (anything else: not integer);
+\* the range of the wide types is beyond the checked 32-bit arithmetic anyway.
+IntKind(dt) == dt \in {"i1", "u1", "i2", "u2", "i4", "i8"}
+IntHi(dt) == CASE dt = "i1" -> 127 [] dt = "u1" -> 255 [] dt = "i2" -> 32767 [] dt = "u2" -> 65535 [] OTHER -> Lim
+IntLo(dt) == CASE dt = "i1" -> -128 [] dt \in {"u1", "u2"} -> 0 [] dt = "i2" -> -32768 [] OTHER -> -Lim
+RawInt(A, B) == /\ IntKind(A.dt) \/ A.k = "n"
+                /\ IntKind(B.dt) \/ B.k \in {"n", "x"}
+                /\ IntKind(A.dt) \/ IntKind(B.dt)
+RawHi(A, B) == IF ~IntKind(A.dt) THEN IntHi(B.dt) ELSE IF ~IntKind(B.dt) THEN IntHi(A.dt)
+               ELSE IF IntHi(A.dt) < IntHi(B.dt) THEN IntHi(A.dt) ELSE IntHi(B.dt)
+RawLo(A, B) == IF ~IntKind(A.dt) THEN IntLo(B.dt) ELSE IF ~IntKind(B.dt) THEN IntLo(A.dt)
+               ELSE IF IntLo(A.dt) > IntLo(B.dt) THEN IntLo(A.dt) ELSE IntLo(B.dt)
+\* the numbers NumPy computes in the integer type (operations that cannot leave the range, or that produce floats, have none;
+\* in a sum of products only the total matters: wrap-around is arithmetic modulo 2^n)
+RawVals(op, meth, A, B) ==
+  LET a == GV(A.v)  b == GV(B.v) IN
+  CASE op \in {"add", "subtract", "multiply", "floor_divide"} /\ meth \in {"call", "outer"} -> Comb(LAMBDA x, y : Elem(op, x, y), meth, a, b)
+    [] op = "dot" -> <<FoldL(CAdd, Map2(CMul, a, b), Len(a))>>
+    [] op \in {"add", "multiply"} /\ meth = "reduce" -> <<FoldL(LAMBDA x, y : Elem(op, x, y), a, Len(a))>>
+    [] op = "add" /\ meth = "accumulate" -> Accum(LAMBDA x, y : Elem(op, x, y), a)
+    [] op = "square" -> Map1(LAMBDA x : CMul(x, x), a)
+    [] op \in {"negative", "absolute"} -> Map1(LAMBDA x : Elem1(op, x), a)
+    [] OTHER -> <<>>
+IntFits(op, meth, A, B, p) ==
+  RawInt(A, B) =>
+    /\ op # "reciprocal"            \* (the reciprocal of an integer is truncated by NumPy)
+    /\ LET r == RawVals(op, meth, A, B)  hi == RawHi(A, B)  lo == RawLo(A, B) IN
+       AllOk(r) /\ \A i \in DOMAIN r : r[i].v[2] # 1 \/ (r[i].v[1] <= hi /\ r[i].v[1] >= lo)
+
 \* a number in radian is carried as a multiple of pi/12: an operation that floors RAW numbers of operands in different
 \* units (what the transcription of floor_divide / divmod does) cannot be followed through that change of variable
 RadianAtom == 15
